@@ -107,23 +107,25 @@ theorem inv_with_cancellation (s : RpqSt) (hw : WellFormed s) (h0 : Initial s) (
       have := cancel_preserves_inv s t hw hi hc.1
       exact ih (s.cancel t).1 this.1 hc.2 this.2
 
-/-! ## messages handed to `send()` frame by frame (DEALER, ROUTER), with futures dropped while pending (M15) -/
+/-! ## messages handed to `send()` frame by frame (DEALER, ROUTER, PUB, PUSH), with futures dropped while pending (M15) -/
 
-/-- the code as it is now: both sockets keep the frames until the last one is given and empty the transaction before
-they await the hand-over (flags re-extracted from `dealer_socket.rs` / `router_socket.rs` on every run) -/
-theorem tx_source_shape : dealerTxCfg = goodTx ∧ routerTxCfg = goodTx := by decide
+/-- the code as it is now: DEALER, ROUTER, PUB and PUSH keep the frames until the last one is given and empty the transaction
+before they await the hand-over (flags re-extracted from the four socket files on every run) -/
+theorem tx_source_shape : dealerTxCfg = goodTx ∧ routerTxCfg = goodTx ∧ pubTxCfg = goodTx ∧ pushTxCfg = goodTx := by decide
 
 /-- whatever the application does — frames, last frames, dropping the pending future of a last frame, send_multipart in
 between — the peer reads only messages the application gave, each whole, in the order given (a cancelled one is there or
 is not), and no frame ever sits in the pipe without the end of its message -/
-theorem cancelled_frame_by_frame_send_is_all_or_nothing (c : TxCfg) (hc : c = dealerTxCfg ∨ c = routerTxCfg)
+theorem cancelled_frame_by_frame_send_is_all_or_nothing (c : TxCfg) (hc : c = dealerTxCfg ∨ c = routerTxCfg ∨ c = pubTxCfg ∨ c = pushTxCfg)
     (evs : List TxEv) :
     let s := ({} : SendTx).run c evs
     s.pipe.Sublist s.offered ∧ s.half = [] ∧ (s.inflight = none → ∀ m ∈ s.pipe, m ∈ s.offered) := by
   have hg : c = goodTx := by
-    rcases hc with h | h
+    rcases hc with h | h | h | h
     · rw [h]; exact tx_source_shape.1
-    · rw [h]; exact tx_source_shape.2
+    · rw [h]; exact tx_source_shape.2.1
+    · rw [h]; exact tx_source_shape.2.2.1
+    · rw [h]; exact tx_source_shape.2.2.2
   subst hg
   have hi := SendTx.inv_run evs {} SendTx.inv_init
   have hfly := hi.fly
@@ -140,14 +142,16 @@ theorem cancelled_frame_by_frame_send_is_all_or_nothing (c : TxCfg) (hc : c = de
 
 /-- … and the socket stays usable: whenever the application is not in the middle of a message the transaction is idle
 (the next frame starts a new message, send_multipart does not wait), however many futures were dropped before -/
-theorem cancelled_last_frame_leaves_the_socket_usable (c : TxCfg) (hc : c = dealerTxCfg ∨ c = routerTxCfg)
+theorem cancelled_last_frame_leaves_the_socket_usable (c : TxCfg) (hc : c = dealerTxCfg ∨ c = routerTxCfg ∨ c = pubTxCfg ∨ c = pushTxCfg)
     (evs : List TxEv) :
     let s := ({} : SendTx).run c evs
     s.stuck = 0 ∧ (s.cur = [] → s.busy = false) ∧ s.buf = s.cur := by
   have hg : c = goodTx := by
-    rcases hc with h | h
+    rcases hc with h | h | h | h
     · rw [h]; exact tx_source_shape.1
-    · rw [h]; exact tx_source_shape.2
+    · rw [h]; exact tx_source_shape.2.1
+    · rw [h]; exact tx_source_shape.2.2.1
+    · rw [h]; exact tx_source_shape.2.2.2
   subst hg
   have hi := SendTx.inv_run evs {} SendTx.inv_init
   refine ⟨hi.stuck_zero, ?_, hi.buf_cur⟩
